@@ -299,6 +299,10 @@ func main() {
 	idx := flag.String("idx", "keyval", "index mode: keyval | keyonly | sparse")
 	segsz := flag.Int64("seg", 64*1024, "segment size")
 	flag.Parse()
+	if *mode == "codec" {
+		runCodec(*in, *out, *tmp, *summary)
+		return
+	}
 	if *mode == "compat" {
 		runCompat(*in, *out, *tmp, *summary, *seed)
 		return
